@@ -2,6 +2,7 @@ package mount
 
 import (
 	"errors"
+	"io"
 	"time"
 
 	"github.com/hack-pad/hackpadfs"
@@ -235,4 +236,48 @@ func VerifC08Lstat() {
 	default:
 		verifAssert(err == nil && info != nil && info.Size() == 1, "Lstat of an existing file failed")
 	}
+}
+
+// VerifC08Create: hackpadfs.Create on an FS without a Create method (every FS of this module except os.FS)
+// behaves like os.Create: the file exists afterwards with the requested bytes, an existing file is
+// truncated, and the returned handle is open for reading and writing (what was written can be read back
+// through the same handle). On an FS that offers neither Create nor OpenFile it fails with ErrNotImplemented.
+func VerifC08Create() {
+	m, err := mem.NewFS()
+	verifAssert(err == nil, "NewFS failed")
+	existing := verifChoice("existing", 2) == 1
+	if existing {
+		verifTag("target", "existing-file")
+		verifAssert(hackpadfs.WriteFullFile(m, "f", verifBytes("old", 3), 0600) == nil, "WriteFullFile")
+	} else {
+		verifTag("target", "absent")
+	}
+	core := &c08Core{fs: m, faultAt: -1}
+	mask := c08All
+	if verifChoice("hide-openfile", 2) == 1 {
+		mask &^= c08OpenFileBit
+		verifTag("hidden", "-OpenFile")
+	}
+	fs := c08Mask(core, mask)
+	f, err := hackpadfs.Create(fs, "f")
+	verifReach("create-returned")
+	if mask&c08OpenFileBit == 0 {
+		verifAssert(err != nil && errors.Is(err, hackpadfs.ErrNotImplemented), "Create without OpenFile must fail with ErrNotImplemented")
+		return
+	}
+	verifAssert(err == nil, "Create failed")
+	info, err := hackpadfs.Stat(m, "f")
+	verifAssert(err == nil && info.Size() == 0, "after Create the file is missing or not empty")
+	data := verifBytes("data", 2)
+	n, err := hackpadfs.WriteFile(f, data)
+	verifAssert(err == nil && n == 2, "writing through the created handle failed")
+	pos, err := hackpadfs.SeekFile(f, 0, 0)
+	verifAssert(err == nil && pos == 0, "Seek on the created handle failed")
+	buf := make([]byte, 2)
+	n, err = f.Read(buf)
+	// (io.EOF together with the last bytes is allowed by io.Reader, as in the C02 check)
+	verifAssert((err == nil || err == io.EOF) && n == 2 && buf[0] == data[0] && buf[1] == data[1], "the created handle cannot read back what was written through it (os.Create opens for reading and writing)")
+	verifAssert(f.Close() == nil, "Close failed")
+	got, err := hackpadfs.ReadFile(m, "f")
+	verifAssert(err == nil && len(got) == 2 && got[0] == data[0] && got[1] == data[1], "the file does not hold the written bytes")
 }
